@@ -394,7 +394,7 @@ def traceLine (s : JState) (unitSeen : Nat) (line : String) : JState × Nat :=
         let s := (judgeUnit cmd (t :: rest)).foldl JState.flag s
         if unitSeen + 1 ≥ unitOutputsOf cmd then ({ s with pendingUnit := more }, 0) else (s, unitSeen + 1)
       | [] => (s.flag s!"unexpected {line}", unitSeen)
-    else (s.flag s!"failure {line}", unitSeen)
+    else (s.flag s!"failure-{t} {line}", unitSeen)
   | [] => (s, unitSeen)
 
 /-- the case lines are interleaved with the trace by position: a case line that produces output (`reload`, `restart`,
